@@ -87,7 +87,14 @@ def analyse(ctx, min_none, max_none):
         elif isinstance(base, Opaque):
             n_it = "len(%s)" % base.text
         lastkeys = {"-1"} | ({"-1 + %s" % n_it} if n_it else set())
-        if is_vars(base) or (isinstance(base, MapV) and getattr(base.body, "cls", None) is VAR):
+        varseq = isinstance(base, MapV) and getattr(base.body, "cls", None) is VAR
+        if varseq and not is_vars(base) and k in ({"0"} | lastkeys):
+            if state["vars_val"] is None:
+                state.setdefault("pending_ends", []).append(base)
+            else:
+                # an end of a different sequence than the one the chain orders
+                return role(("FIRST" if k == "0" else "LAST") + "-of-" + key(base)[:60], VAR)
+        if is_vars(base) or varseq:
             if k == "0":
                 return role("FIRST", VAR)
             if k in lastkeys:
@@ -215,6 +222,9 @@ def analyse(ctx, min_none, max_none):
     st = ev.new_state(f, {f.params[0]: nodes, f.params[1]: options} if len(f.params) >= 2 else {})
     r = ev.block(f.node.body, st, [])
     M.ret = r.value if r is not None else NONE
+    for b in state.get("pending_ends", []):
+        if state["vars_val"] is not None and not is_vars(b):
+            M.problems.append(("C03.WALLS", "a wall is anchored on an end of %s but the chain orders %s" % (key(b)[:60], key(state["vars_val"])[:60]), f.node))
     M.events = st.events
     M.state = st
     M.ev = ev
@@ -301,6 +311,18 @@ def _flat_events(evs):
         elif e[0] == "while":
             yield e
             yield from _flat_events(e[2])
+        else:
+            yield e
+
+
+def _uncond_events(evs):
+    """Like _flat_events but without descending into conditional branches."""
+    for e in evs:
+        if e[0] == "in-branch":
+            continue
+        elif e[0] == "loop":
+            yield e
+            yield from _uncond_events(e[3])
         else:
             yield e
 
